@@ -743,7 +743,18 @@ class LDAPFilter:
             LDAPFilter: The converted filter.
         """
         filter = filter.strip()
-        b_filter = filter.encode("utf-8", errors="surrogateescape")
+        try:
+            b_filter = filter.encode("utf-8", errors="surrogateescape")
+        except UnicodeEncodeError as e:
+            # surrogateescape only covers U+DC80 - U+DCFF, any other lone
+            # surrogate cannot be represented as bytes.
+            raise FilterSyntaxError(
+                "Filter contains characters that cannot be encoded",
+                filter=filter,
+                offset=e.start,
+                length=e.end - e.start,
+            ) from None
+
         filter_view = memoryview(b_filter)
         try:
             filter_obj, consumed = _unpack_filter(filter, filter_view, 0, len(b_filter))
